@@ -280,6 +280,56 @@ func c02c(c *Ctx, v *variants.Variant) {
 		}
 		beforeStart = readPos != nil && evalPos != nil && readPos.Pos() < evalPos.Pos() && len(guardsOf(pf.Body, readPos.Pos())) == 0
 	}
+	// the parser works on exactly the bytes the caller passed
+	okData := false
+	dataWhy := ""
+	if pfn := v.Func("", "Parse"); pfn != nil && np != nil {
+		var bParam string
+		names := []string{}
+		for _, f := range pfn.Type.Params.List {
+			for _, nm := range f.Names {
+				names = append(names, nm.Name)
+			}
+		}
+		if len(names) == 3 {
+			bParam = names[1]
+		}
+		single := len(pfn.Body.List) == 1
+		passes := false
+		for _, ce := range callsIn(pfn.Body) {
+			if callName(ce) == "newParser" && len(ce.Args) == 3 && nospace(ce.Args[1]) == bParam {
+				passes = true
+			}
+		}
+		npNames := []string{}
+		for _, f := range np.Type.Params.List {
+			for _, nm := range f.Names {
+				npNames = append(npNames, nm.Name)
+			}
+		}
+		stored := false
+		reassigned := false
+		if len(npNames) == 3 {
+			ast.Inspect(np.Body, func(n ast.Node) bool {
+				switch x := n.(type) {
+				case *ast.KeyValueExpr:
+					if nospace(x.Key) == "data" && nospace(x.Value) == npNames[1] {
+						stored = true
+					}
+				case *ast.AssignStmt:
+					for _, l := range x.Lhs {
+						if nospace(l) == npNames[1] {
+							reassigned = true
+						}
+					}
+				}
+				return true
+			})
+		}
+		okData = single && passes && stored && !reassigned
+		dataWhy = fmt.Sprintf("Parse-is-a-single-forwarding-call=%t passes-its-slice=%t newParser-stores-it=%t slice-reassigned=%t", single, passes, stored, reassigned)
+	}
+	r.Check(okData, "C02-c", "T.Parse/newParser:input-is-the-callers-bytes", vn, "builder/static_code.go", "p.data is the caller's slice, unmodified", dataWhy+": offsets, lines and columns reported to code blocks would no longer refer to the caller's input")
 	r.Check(okInit && reads == 1 && beforeStart, "C02-c", "T.newParser/parse:initial-position", vn, "builder/static_code.go", "pt starts at line 1, col 0, offset 0; one unconditional read() before the start rule",
 		fmt.Sprintf("initial pt literal {%s}, %d read() calls in parse, before-start-rule=%t: every reported line/col/offset would be shifted", got, reads, beforeStart))
 }
